@@ -64,7 +64,7 @@ CHECKS = {
             "TLA+ spec (JasmMacro InlineRef over Doc trees) + TLC; both documents compiled by the code; TLC trace validation"),
     "C14": ("model_checking", "4.6, 7 C14",
             "JasmSession (process-global configuration written by Construct, read by Match) model-checked with Atomic = TRUE; "
-            "control with Atomic = FALSE must fail; every history of <= MaxOps complete operations over 9 rule documents is "
+            "control with Atomic = FALSE must fail; every history of <= MaxOps complete operations (quick tier: <= 2 plus every A-B-A) over the 18 rule documents of spec/MC_C14.tla, with inputs replaced at the same path, is "
             "replayed in one real process, each operation compared with the same operation in a fresh process, and every "
             "history trace is validated by TLC against JasmSession's actions (Trace_Session); the inductive core is also "
             "discharged by Apalache for unbounded histories (extra evidence).",
